@@ -5,6 +5,7 @@ import (
 	"encoding/hex"
 	"encoding/json"
 	"fmt"
+	"time"
 	"strings"
 
 	"github.com/cloudwego/gopkg/protocol/thrift"
@@ -314,7 +315,7 @@ func c03Run(c *mc.Ctx) {
 
 func init() {
 	Register(&Check{
-		ID: "C03", Level: "exploration",
+		ID: "C03", Level: "exploration", Thorough: 45 * time.Minute,
 		Rule: "every buffer-based entry point (13 Binary.Read*, Binary.Skip x 256 type bytes, Base/BaseResp/ApplicationException.FastRead, FastUnmarshal, UnmarshalFastMsg, ConvertUnknownFields, ttheader.DecodeFromBytes) on: all strings over the grammar alphabet up to length L, all strings over the full alphabet up to length 2 (3 thorough), every truncation, every single structural perturbation (type tags x all 256 values, sizes, ids) and pairwise splices of generated valid encodings (value trees, Base/BaseResp/exception structs with unknown fields, message envelopes, unknown-field sequences, TTHeader frames); each call in 3 placements (guard page after the slice, spare capacity 0x00 / 0xff); distinct = distinct inputs",
 		Assumptions: []string{
 			"entry points that allocate the declared size (Base/BaseResp map, unknown-field containers) are only driven with declared sizes <= 65536, as the statement allows; skipped inputs are counted",
